@@ -38,7 +38,7 @@ ASSUMPTIONS = [
 ]
 MAX_SHARDS = 16
 RUNS = (1, 1, 2, 3, 5, 10, 30, 10**9)
-QKINDS = ('has', 'get', 'bulk', 'meta', 'stream')
+QKINDS = ('has', 'get', 'bulk', 'meta', 'stream', 'bulkseek')
 
 
 def strategy():
@@ -165,6 +165,32 @@ def run_case(case):  # pylint: disable=too-many-locals,too-many-statements,too-m
                     problems.append(('reader:missing', f'{tag}: metadata reports acknowledged {key[:6]} missing'))
                 if present and (key not in universe or meta.size != len(universe[key])):
                     problems.append(('reader:wrong-size', f'{tag}: metadata of {key[:6]} has size {meta.size}'))
+        elif qkind == 'bulkseek':
+            seen = set()
+            with handle.get_objects_stream_and_meta(request, skip_if_missing=bool(extra & 1)) as triplets:
+                for key, stream, meta in triplets:
+                    seen.add(key)
+                    data = universe.get(key)
+                    if stream is None:
+                        if key in must:
+                            problems.append(('reader:missing', f'{tag}: bulk stream reports acknowledged {key[:6]} missing'))
+                        continue
+                    if data is None:
+                        problems.append(('reader:phantom', f'{tag}: bulk stream yields never-stored {key[:6]}'))
+                        continue
+                    if meta.size != len(data):
+                        problems.append(('reader:wrong-size', f'{tag}: bulk stream meta of {key[:6]} has size {meta.size}, content {len(data)}'))
+                    head = stream.read(2)
+                    back = min(len(data), 1 + extra % 5)
+                    stream.seek(-back, 2)
+                    tail = stream.read()
+                    stream.seek(0)
+                    whole = stream.read()
+                    if head != data[:2] or tail != data[len(data) - back :] or whole != data:
+                        problems.append(('reader:wrong-bytes', f'{tag}: seeking read inside the bulk iteration returned wrong bytes for {key[:6]} (whole read: {short(whole)})'))
+            for key in set(request):
+                if key in must and key not in seen:
+                    problems.append(('reader:missing', f'{tag}: bulk stream skips acknowledged {key[:6]}'))
         else:
             key = request[0]
             data = universe.get(key)
@@ -207,6 +233,8 @@ def run_case(case):  # pylint: disable=too-many-locals,too-many-statements,too-m
     for i, spec in enumerate(case['readers']):
         sched.add_actor(f'r{i}', reader(spec))
     sched.add_actor('packer', packer)
+    if case.get('order'):
+        sched.order.sort(key=lambda a: case['order'].index(a.name))
     shim = Shim(path, sched, trace_reads=True)
     try:
         shim.install()
@@ -251,6 +279,7 @@ def run_case(case):  # pylint: disable=too-many-locals,too-many-statements,too-m
     fp = [shape, [(a, k) for a, k, _ in trace if k in ('sql-commit', 'unlink', 'rename', 'op-start')]]
     sample = {'actors': [a.name for a in sched.order], 'events': len(trace), 'switches': sched.switches, 'patterns': {k: v for k, v in summary.items() if v},
               'trace_excerpt': [f'{a}:{b}' for a, _, b in trace[:14]]}
+    case['_events'] = {a.name: a.events for a in sched.order}
     return nontrivial, fp, sample, labels
 
 
@@ -298,10 +327,97 @@ def interleaving(trace):
     return out
 
 
+# ------------------------------------------------------------------------------------------- exhaustive small schedules
+
+_CFG = {'hash_type': 'sha256', 'loose_prefix_len': 2, 'level': 1, 'pack_size_target': 4 * 1024**3}
+_POOL = [['text', 300, 1], ['text', 700, 2], ['random', 200, 3], ['text', 90, 4]]
+SCENARIOS = {
+    # pool index 0 loose, 1 packed compressed beforehand; the writer adds 2 (new) / 0 (duplicate of a loose object)
+    'get-loose-vs-pack+clean': {'pre': [(0, 0), (1, 2)], 'writers': [[(2, False)]],
+                                'readers': [{'long': False, 'ops': [('get', [6], 0), ('get', [6], 0)]}],
+                                'packer': {'mode': 0, 'clean_per_pack': True, 'validate': True}},
+    'long-handle-has+bulk': {'pre': [(0, 0), (1, 2)], 'writers': [[(2, True)]],
+                             'readers': [{'long': True, 'ops': [('has', [6, 11], 0), ('bulk', [6, 11, 16], 1)]}],
+                             'packer': {'mode': 1, 'clean_per_pack': False, 'validate': True}},
+    'seek-compressed-vs-clean': {'pre': [(0, 0), (1, 2)], 'writers': [[(0, False)]],
+                                 'readers': [{'long': False, 'ops': [('stream', [11], 3), ('meta', [6, 11], 0)]}],
+                                 'packer': {'mode': 3, 'clean_per_pack': True, 'validate': False}},
+    'bulk-seek-vs-compressing-packer': {'pre': [(0, 0), (1, 0), (3, 2)], 'writers': [[(2, False)]],
+                                        'readers': [{'long': False, 'ops': [('bulkseek', [6, 11, 21], 2), ('bulkseek', [6, 11, 16], 1)]}],
+                                        'packer': {'mode': 1, 'clean_per_pack': True, 'validate': True}},
+    'long-handle-meta-get': {'pre': [(0, 3), (3, 0)], 'writers': [[(2, False), (3, True)]],
+                             'readers': [{'long': True, 'ops': [('meta', [6, 21], 0), ('get', [21], 0), ('has', [6, 16, 21], 0)]}],
+                             'packer': {'mode': 5, 'clean_per_pack': True, 'validate': True}},
+}
+_ORDERS = (['w0', 'r0', 'packer'], ['packer', 'r0', 'w0'], ['r0', 'packer', 'w0'])
+
+
+def _fixed_case(name, order, schedule):
+    spec = SCENARIOS[name]
+    return {'cfg': _CFG, 'pool': _POOL, 'pre': spec['pre'], 'writers': spec['writers'], 'readers': spec['readers'],
+            'packer': spec['packer'], 'schedule': schedule, 'order': order, 'scenario': name}
+
+
+def exhaustive(ctx, depth):
+    """ALL schedules with at most `depth` pre-emptions of the small scenario families: actor A runs n1 events, is pre-empted
+    by B (which runs n2 events and is pre-empted by C, for depth 2), everybody else then runs to completion in base order."""
+    big = 10**9
+    index = 0
+    done = 0
+    for name in SCENARIOS:
+        for order in _ORDERS:
+            base = _fixed_case(name, order, [])
+            run_case(base)
+            events = base['_events']
+            actors = list(order)
+            schedules = []
+            for first in actors:
+                for n1 in range(1, events[first] + 1):
+                    for second in actors:
+                        if second == first:
+                            continue
+                        if depth == 1:
+                            schedules.append([(first, n1), (second, big)])
+                            continue
+                        # depth 2: `second` is pre-empted after n2 events by any third choice
+                        for n2 in range(1, events[second] + 2, 1 if n1 % 4 == 1 else 3):
+                            for third in actors:
+                                if third != second:
+                                    schedules.append([(first, n1), (second, n2), (third, big)])
+            for schedule in schedules:
+                index += 1
+                if not ctx.mine(index):
+                    continue
+                if ctx.out_of_time():
+                    ctx.stats.skipped_budget += 1
+                    continue
+                case = _fixed_case(name, order, schedule)
+                try:
+                    nontrivial, fp, sample, labels = run_case(case)
+                except Violation as exc:
+                    case.pop('_events', None)
+                    ctx.stats.violations.append({'property': exc.prop, 'sig': exc.sig, 'msg': exc.msg, 'case': case, 'log': getattr(exc, 'log', None)})
+                    return
+                done += 1
+                sample['scenario'] = name
+                sample['schedule'] = schedule
+                ctx.stats.record(nontrivial, ['x', name, order, fp], sample)
+                for label in labels:
+                    if label.startswith('pattern:'):
+                        ctx.stats.label('x-' + label)
+    ctx.stats.label('exhaustive-schedules', done)
+    ctx.stats.extra['exhaustive_preemption_depth'] = str(depth)
+    ctx.stats.extra['exhaustive_schedules_run'] = done
+
+
 def run_shard(ctx):
-    n = 250 if ctx.tier == 'quick' else 6000
-    ctx.set_budget(70 if ctx.tier == 'quick' else 2400)
+    quick = ctx.tier == 'quick'
+    n = 170 if quick else 20000
+    ctx.set_budget(45 if quick else 1100)
     explore(ctx, strategy(), run_case, n)
+    if not ctx.stats.violations:
+        ctx.set_budget(40 if quick else 1100)
+        exhaustive(ctx, 1 if quick else 2)
 
 
 def replay(case):
